@@ -31,6 +31,7 @@ def templates(r, out):
         ("cpu_list", {"cpu_list": sorted(r.sample(range(1, out["ncpu"] + 1), max(1, out["ncpu"] // 2)))}),
         ("sortby", {"sortby": {"part": "identity"}} if ("identity" in allp) else {}),
         ("grouplist_part", {"form": "grouplist", "mesh_on": False, "part_on": True, "sink_on": False}),
+        ("sortby_sink", {"sortby": {"sink": "msink"}} if (out.get("sink") and out["sink"]["rows"]) else {}),
     ]
     return t
 
@@ -56,6 +57,12 @@ def run(ctx):
         out, _ = gen_hilbert_output(r, ncpu=r.choice([4, 8, 16, 32]), levelmin=r.choice([2, 3]), levelmax=r.choice([3, 4]), max_octs=40)
         # add particles and sinks to the hilbert-consistent output
         extra = ramses.gen_output(r, ndim=3, ncpu=out["ncpu"], levelmin=1, levelmax=1, nboundary=0, with_part=True, with_sink=True, exact=True)
+        for _ in range(12):      # at least three sinks whose masses are not already in increasing order (so that sorting them shows)
+            sk = extra["sink"]
+            if sk and len(sk["rows"]) >= 3 and [row[1] for row in sk["rows"]] != sorted(row[1] for row in sk["rows"]) \
+                    and len({row[1] for row in sk["rows"]}) == len(sk["rows"]):
+                break
+            extra["sink"] = ramses.gen_output(r, ndim=3, ncpu=1, levelmin=1, levelmax=1, nboundary=0, with_part=False, with_sink=True, exact=True)["sink"]
         out["part"], out["sink"] = extra["part"], extra["sink"]
         out["unit_d"], out["unit_l"], out["unit_t"], out["boxlen"] = out["unit_d"], out["unit_l"], out["unit_t"], out["boxlen"]
         tmpl = templates(r, out)
@@ -63,7 +70,8 @@ def run(ctx):
         # histories that have carried state between calls before (CPU pre-selection, level cap, cpu_list, selections): always run
         must = [[by[a], by[b]] for a, b in (("box", "no_mesh"), ("positional_box", "grouplist_part"), ("box", "only_sink"),
                                              ("level_cap", "grouplist_part"), ("level_cap", "full"), ("cpu_list", "full"),
-                                             ("cpu_list", "no_mesh"), ("value_pred", "no_part"), ("mesh_vars", "full"), ("box", "full"))]
+                                             ("cpu_list", "no_mesh"), ("value_pred", "no_part"), ("mesh_vars", "full"), ("box", "full"),
+                                             ("sortby_sink", "full"), ("sortby_sink", "only_sink"), ("sortby", "full"))]
         if ctx.tier == "quick":
             hists = must + [[a, b] for a in r.sample(tmpl, 5) for b in r.sample(tmpl, 3)]
         else:
@@ -149,8 +157,8 @@ def run(ctx):
                                             "call_site": "RamsesDataset.load", "input_class": cls})
     out_.distribution = {"first_call": dist}
     out_.rule = ("one synthetic dataset (Hilbert-consistent ownership, 4..32 cpus, particles and sinks) per round; histories of 2-4 load() calls "
-                 "from 13 argument templates (full, positional box, box, mesh off, part off, only sinks, variable lists, level cap, value "
-                 "predicate, cpu_list, sortby, group list); after each history every group equals the fresh-dataset result of the most recent "
+                 "from 14 argument templates (full, positional box, box, mesh off, part off, only sinks, variable lists, level cap, value "
+                 "predicate, cpu_list, sortby on particles, sortby on sinks, group list); after each history every group equals the fresh-dataset result of the most recent "
                  "call that produced it, meta counts match the groups, and the number of files each call opens equals the LoadHistory model's. "
                  "non-trivial = the calls differ; distinct by case hash")
     return out_
